@@ -689,8 +689,13 @@ pub fn run(args: &Args, prop: &str) -> SubResult {
     res.bound = format!("{} operations over ids {{p,q}} x types {{A1,A2,V,C(compound),Directory}}; {} source worlds (each of 4 files absent/valid/garbage); front-ends AssetCache (with/without reloader), LocalAssetCache, and the AnyCache view of each; BFS to fix-point over canonical states + every history without deduplication to depth {} (with reloader: depth 2)", alpha.len(), worlds.len(), depth);
     res.rule = "state = history replayed on a fresh real cache; canonical state = sorted cache contents; oracle = BTreeMap reference on every return value, the full contains/get_cached matrix and the drop ledger after every step; distinct = distinct (world, front-end, canonical state, observation trace)".into();
     let mut cases = vec![];
-    for w in &worlds {
+    for (wi, w) in worlds.iter().enumerate() {
         for f in fronts {
+            // the ledger view (C13) of the quick tier: first world, typed front-ends (the AnyCache
+            // views share the same storage code); C02 itself and the thorough tier run everything
+            if prop == "C13" && !thorough && (wi > 0 || f.1) {
+                continue;
+            }
             cases.push((*w, f));
         }
     }
@@ -707,14 +712,15 @@ pub fn run(args: &Args, prop: &str) -> SubResult {
         // first world; thorough: everything except the thread-spawning front-end)
         let mut seen: HashSet<u64> = HashSet::new();
         let mut q: VecDeque<Vec<Op>> = VecDeque::new();
-        let do_bfs = if thorough { front != Front::TypedHot || idx < 6 } else { idx < 6 && matches!((front, any), (Front::Typed, false) | (Front::Local, true)) };
+        let do_bfs = if thorough { front != Front::TypedHot || idx < 6 } else { idx < 6 && front != Front::TypedHot };
         if do_bfs {
             q.push_back(vec![]);
         }
         seen.insert(h64(&Model::default()));
         let mut maxd = 0;
         // quick: one offered value per get_or_insert in the BFS (the depth-bounded sweep below keeps both)
-        let bfs_alpha: Vec<Op> = if thorough { alpha.clone() } else { alpha.iter().filter(|o| !matches!(o, Op::Goi(_, _, 72))).cloned().collect() };
+        // (and the fix-point over ONE id; interactions between the two ids are in the depth-bounded sweep)
+        let bfs_alpha: Vec<Op> = if thorough { alpha.clone() } else { alpha.iter().filter(|o| !matches!(o, Op::Goi(_, _, 72)) && !format!("{o:?}").contains("\"q\"")).cloned().collect() };
         while let Some(hist) = q.pop_front() {
             for op in &bfs_alpha {
                 let mut h2 = hist.clone();
